@@ -91,15 +91,21 @@ def repeatability_conformance():
 
 def run():
     work = Work("extras")
-    out = {"provider": provider_conformance(work), "repeatability": repeatability_conformance()}
+    import dispatch
+    out = {"provider": provider_conformance(work), "repeatability": repeatability_conformance(), "dispatch": dispatch.conformance(work)}
     work.cleanup()
     (VERIF / "evidence" / "extras.json").write_text(json.dumps(out, indent=1) + "\n")
     for k, v in out["provider"]["deviations"].items():
         print(f"OBSERVATION provider: {v['count']} configurations deviate from Provider.tla ({k}); e.g. {v['example']}")
     print(f"extras: provider {out['provider']['agree']}/{out['provider']['configurations_replayed']} configurations agree; "
           f"repeatability {out['repeatability']['cases'] - out['repeatability']['deviations']}/{out['repeatability']['cases']}")
+    for k, v in out["dispatch"]["deviations"].items():
+        print(f"OBSERVATION dispatch: {v['count']} calls deviate from Dispatch.tla ({k}); e.g. {v['example']}")
+    print(f"extras: dispatch {out['dispatch']['agree']}/{out['dispatch']['calls_replayed']} calls agree ({out['dispatch']['states']} states)")
     bad_declared = out["provider"]["deviations"].get("all instances declare format and version")
-    return 1 if (bad_declared or out["repeatability"]["deviations"]) else 0
+    # get_evaluation_method of the mapping based evaluators is a known deviation from its documentation (DESIGN 12.5a); anything else fails
+    bad_dispatch = [k for k in out["dispatch"]["deviations"] if not (k.endswith("/get_method") and k.split("/")[1] in ("dict", "cer"))]
+    return 1 if (bad_declared or out["repeatability"]["deviations"] or bad_dispatch) else 0
 
 
 if __name__ == "__main__":
